@@ -198,12 +198,60 @@ def run(tier, rep):
                     'x = { %s : 1 } ;', '%s : x ;', '%s ( %s ) ;',
                     'x = { get %s ( ) { } } ;'):
             cat.append(ctx.replace('%s', lx))
+    # reserved words as property names (11.1.5, 11.2.1: IdentifierName),
+    # followed by what makes the next `/` a division or a regular expression
+    from mc.refmodel import lexer as R1
+    for w in sorted(R1.RESERVED):
+        for ctx in ('x . %s ;', 'x . %s / 2 ;', '( x . %s ) / 2 ;',
+                    '[ x . %s ] / 2 ;', 'x . %s ++ / 2 ;',
+                    'x . %s ( ) / 2 ;', '{ x . %s } / 2 / . p ;',
+                    'x = { %s : 1 } / 2 ;', 'x . %s \n / 2 / g ;',
+                    'x . %s . %s ;', 'x = { %s : 1 , get %s ( ) { } } ;',
+                    'if ( x . %s ) / 2 / . test ( y ) ;',
+                    'while ( x . %s ) / 2 / ;', 'x . %s ? 1 : 2 ;',
+                    'x . %s \n y ;', 'x [ x . %s ] ( x . %s ) ;',
+                    'f ( x . %s ) / 2 ;', 'new x . %s ( ) / 2 ;'):
+            cat.append(ctx.replace('%s', w))
     cat = sorted(set(cat))
     for acc in pmap(work, cat):
         m.add(acc)
     rep.add(states=len(cat), transitions=len(cat))
     rep.space('lexeme-catalogue', lexemes=len(LEXEME_CATALOGUE),
               identifiers=len(IDENTIFIER_CATALOGUE), texts=len(cat))
+
+    # every code point as the first and as a later character of a word
+    # (7.6: the identifier characters are a property of single characters)
+    hi = 0x10000 if tier == 'quick' else 0x110000
+    cps = []
+    for c in range(hi):
+        if 0xD800 <= c <= 0xDFFF:
+            continue
+        ch = chr(c)
+        cps += [ch + ' ;', 'a' + ch + ' ;']
+        if tier != 'quick' or c < 0x3000:
+            cps += ['a' + ch + 'b ;', 'x . ' + ch + ' ;']
+    for acc in pmap(work, cps):
+        m.add(acc)
+    rep.add(states=len(cps), transitions=len(cps))
+    rep.space('code-points', upto=hex(hi), texts=len(cps))
+
+    # layout: every one-constructor program with one gap at a time filled
+    # by each layout kind (comments before / after / holding the line break)
+    from mc.space import layouts as LAY
+    from mc.space import grammar as G0
+    lay_texts = []
+    for lex in G0.programs(1):
+        for name, sep in LAY.LAYOUTS:
+            if name == 'SP':
+                continue
+            for i in range(1, len(lex)):
+                lay_texts.append(' '.join(lex[:i]) + sep + ' '.join(lex[i:]))
+    lay_texts = sorted(set(lay_texts))
+    for acc in pmap(work, lay_texts):
+        m.add(acc)
+    rep.add(states=len(lay_texts), transitions=len(lay_texts))
+    rep.space('layouts', kinds=[n for n, s_ in LAY.LAYOUTS if n != 'SP'],
+              texts=len(lay_texts))
 
     # S2 / S3: derivations and their single-lexeme mutants
     try:
